@@ -295,6 +295,8 @@ def r5_operator_table(ctx):
         "UnaryWrapper.__mul__": {"other == 1", "1 == other"},
         "Expr.__pow__": {"other == 1", "1 == other"},
     }
+    for q in table:
+        identity.setdefault(q, set())   # the reflected / remaining operators have no operand for which `self` is the answer (1 / x is not x)
     for q, accepted in identity.items():
         fn = ctx.func(EXPR, q)
         for r in [n for n in walk_shallow(fn) if isinstance(n, ast.Return) and U(n.value) == "self"]:
@@ -584,3 +586,5 @@ MUTANTS.append(Mutant("eyring-RT-divided", [(EYR, "    except AttributeError:\n 
 MUTANTS.append(Mutant("radiolytic-yield-misaligned", [(RATES, "                    for k, gval in zip(\n                        self.parameter_keys[1:],", "                    for k, gval in zip(\n                        self.parameter_keys[2:],")], "C16-R7", "sum(doserate"))
 MUTANTS.append(Mutant("ramp-subtracted", [(RATES, "return T0 + dTdt * variables[\"time\"]", "return T0 - dTdt * variables[\"time\"]")], "C16-R7", "T0+dTdt*t"))
 
+
+MUTANTS.append(Mutant("rtruediv-one-shortcut", [(EXPR, "    def __rtruediv__(self, other):\n        return _DivExpr([_implicit_conversion(other), self])", "    def __rtruediv__(self, other):\n        if other == 1:\n            return self\n        return _DivExpr([_implicit_conversion(other), self])")], "C16-R5", "shortcut-only-for-identity"))
